@@ -30,7 +30,9 @@ generator handlers only:
   ['sleep', t]                yield sleep(t)
 evspec: {'name': str, 'prio': number (default 0), 'flags': {'success','failure','complete','notify': bool},
          'cancel': bool (cancel right after firing), 'success_channels'/'complete_channels': [...],
-         'channels': [...] (fire to these channels; handlers may carry 'channel')}
+         'channels': [...] (fire to these channels; handlers may carry 'channel'),
+         'share': key (call/wait/waitname only: the first executor fires the event, later ones - while it has not been dispatched - only wait
+                  for that same instance)}
 """
 
 
@@ -57,6 +59,7 @@ class World:
         self.prog = prog
         self.log = []
         self.events = {}      # uid -> info
+        self.shared = {}      # share key -> (event object, uid): events several handlers wait for (evspec 'share')
         self.objs = {}        # uid -> event object
         self.nuid = 0
         self.flush_depth = 0
@@ -402,7 +405,15 @@ class World:
                     self.L('GR', uid, hid, step)
                 elif k in ('call', 'wait', 'waitname'):
                     opts = dict(act[2]) if len(act) > 2 and act[2] else {}
-                    if k == 'call':
+                    share = act[1].get('share')
+                    held = self.shared.get(share) if share is not None else None
+                    if held is not None and self.events[held[1]]['dispatched'] == 0 and not self.events[held[1]]['cancelled']:
+                        # somebody else already fired this very event and it has not been dispatched yet: wait for the same instance
+                        e, cu = held
+                        k = 'wait' if k == 'call' else k
+                        g = comp.wait(e if k == 'wait' else e.name, **opts)
+                        self.events[cu]['waiters'] = self.events[cu].get('waiters', 1) + 1
+                    elif k == 'call':
                         e, cu = self.mk_event(act[1], parent=uid, by=hid)
                         self.events[cu]['fired_at'] = self.L('F', cu, uid, hid, act[1].get('prio', 0))
                         self.events[cu]['via'] = 'call'
@@ -413,7 +424,10 @@ class World:
                         e, cu = self.fire(act[1], parent=uid, by=hid, target=comp)
                         self.events[cu]['via'] = k
                         g = comp.wait(e if k == 'wait' else e.name, **opts)
-                    fired.append(cu)
+                    if held is None or held[1] != cu:
+                        fired.append(cu)
+                        if share is not None:
+                            self.shared[share] = (e, cu)
                     self.L('SUSP', uid, hid, step, cu, k, opts.get('timeout'), self.tick_no)
                     try:
                         r = yield g
